@@ -41,8 +41,12 @@ def fr(x):
     return Fraction(x[0], x[1])
 
 
-def check_object(run, fdmod, coremod, states):
-    """states: three spec states (dicts) -> one FiniteDifference object (axes x,y,z)."""
+BOUNDARIES = ("no boundary", "periodic", "symmetric")
+
+
+def check_object(run, fdmod, coremod, states, boundary="no boundary"):
+    """states: three spec states (dicts) -> one FiniteDifference object (axes x,y,z).  The grid the object describes is the one the
+    parameters specify whatever the boundary treatment of the derivative operators."""
     p = states[0]["p"]
     names = "xyz"
     param = {}
@@ -55,19 +59,22 @@ def check_object(run, fdmod, coremod, states):
         # grid points (e.g. a periodic box): the object must report the grid it builds
         for ax, st in zip(names, states):
             param[ax + "max"] = float(fr(st["mn"])) + st["n"] * float(fr(st["d"]))
-    ctx = {"param": dict(param), "fd_order": p}
+    ctx = {"param": dict(param), "fd_order": p, "boundary": boundary}
 
     def vio(clause, axis, st, what, extra=None):
         sig = {"clause": clause, "axis": axis}
+        if boundary != "no boundary":
+            sig["boundary"] = boundary
+            what = f"[boundary={boundary!r}] " + what
         rep = dict(ctx)
         rep.update({"axis": axis, "state": st})
         rep.update(extra or {})
         run.violation(sig, what, rep)
 
     try:
-        fd = fdmod.FiniteDifference(dict(param), fd_order=p, verbose=False)
+        fd = fdmod.FiniteDifference(dict(param), boundary=boundary, fd_order=p, verbose=False)
     except Exception as ex:
-        run.violation({"clause": "Constructs", "exc": type(ex).__name__},
+        run.violation({"clause": "Constructs", "exc": type(ex).__name__, "boundary": boundary},
                       f"FiniteDifference(param) raised {type(ex).__name__}: {ex}", ctx)
         return 0
     ok = True
@@ -232,6 +239,8 @@ def run(tier, seed):
         for i in range(k):
             trip = [sts[i], sts[(i + o1) % k], sts[(i + o2) % k]]
             good = check_object(run, fdmod, coremod, trip)
+            # the other boundary treatments in turn
+            good = check_object(run, fdmod, coremod, trip, BOUNDARIES[1 + i % 2]) and good
             run.traces += good
             for st in trip:
                 d = fr(st["d"])
